@@ -58,7 +58,8 @@ def run_case(tape, tier):
     for i in range(nconn):
         plans.append(dict(c2s=[tape.pick("size", sizes) for _ in range(tape.draw("n_c2s", maxpay + 1))],
                           s2c=[tape.pick("size", sizes) for _ in range(tape.draw("n_s2c", maxpay + 1))]))
-    cfg = dict(tls=tls, bs=bs, cap=cap, nconn=nconn, rates=rates, plans=plans)
+    second_life = tape.flag("second_life", 1, 4)
+    cfg = dict(tls=tls, bs=bs, cap=cap, nconn=nconn, rates=rates, plans=plans, second_life=second_life)
     actions = []
 
     # the server starts listening late: the clients (set up to retry on a timeout) queue before they are connected and
@@ -252,6 +253,52 @@ def run_case(tape, tier):
                     res.violate("wirelog-tx", "server conn %d: wire log tx has %d bytes, the kernel accepted %d" % (i, len(mtx), len(ktx)))
                 if mrx != krx:
                     res.violate("wirelog-rx", "server conn %d: wire log rx has %d bytes, recv returned %d" % (i, len(mrx), len(krx)))
+        # ---- second life: the server closes the (now quiet) connection of client 0; the application hands over more bytes while
+        # the client is cut off, reopens it and goes on: the new connection carries exactly what was handed over since the cut
+        if ok and not res.violations and second_life:
+            c = lab.clients[0]
+            rm = lab.remoter_for(0)
+            if rm is not None and c.connected and not c.cutoff:
+                lab.as_owner("server", lab.server.removeIx, rm.ca)
+                for _ in range(50):
+                    net.step()
+                    lab.svc_client(0)
+                    if c.cutoff:
+                        break
+                if c.cutoff:
+                    res.faults["server_closed_then_client_reopened"] += 1
+                    again = bytearray()
+                    base_rx = len(crx(0))
+
+                    def tx2(n):
+                        data = pattern(0x80, len(again), n)
+                        if appbuf[0] is not None:
+                            appbuf[0][0].extend(data)
+                        else:
+                            c.tx(data)
+                        again.extend(data)
+                    tx2(1 + tape.draw("second_n1", 200))          # handed over while cut off
+                    lab.as_owner("client0", c.reopen)
+                    more = 1 + tape.draw("second_n2", 200)
+                    sent_more = False
+                    rm2 = None
+                    for rnd in range(400):
+                        lab.svc_client(0)
+                        lab.svc_server()
+                        net.step()
+                        if c.connected and not sent_more:
+                            tx2(more)                                # and once connected again
+                            sent_more = True
+                        rm2 = lab.remoter_for(0)
+                        if sent_more and rm2 is not None and rm2 is not rm and bytes(rm2.rxbs) == bytes(again):
+                            break
+                    got = bytes(rm2.rxbs) if rm2 is not None and rm2 is not rm else b""
+                    res.comparisons += 1
+                    if got != bytes(again):
+                        res.violate("stream-after-reopen", "client 0 was cut off by the server, handed %d more bytes over (the first %d while cut "
+                                    "off), reopened: the server received %d bytes on the new connection, first difference at offset %d "
+                                    "(client connected %s cutoff %s txbs left %d)" % (len(again), len(again) - (more if sent_more else 0), len(got),
+                                                                                      _firstdiff(got, bytes(again)), c.connected, c.cutoff, len(c.txbs)))
         events = list(net.events)
         sim_now = net.now
     res.scenario = lambda: dict(config=cfg, actions=["%s%d" % a for a in actions][:300], faults=dict(res.faults))
